@@ -22,6 +22,7 @@ type Obj struct {
 	// for data race monitor
 	shared bool
 	dirty  map[int]struct{} // big objects: cells ever written
+	syncObj bool            // cells are only touched by synchronisation models
 }
 
 type Pointer struct {
